@@ -87,6 +87,7 @@ def build():
     out.append(coq_strs("ENV_SHORT_WITH_ARG", lit_chars(module_assign(ev, "SHORT_WITH_ARG"), "env SHORT_WITH_ARG"),
                         "cli/env.py SHORT_WITH_ARG (one-character strings)"))
     need(ev, "classify", ["split-string", "S", "-", "--", "="])
+    need(ev, "_split_string", ["#", " ", "ask", "delegate"])
 
     # xargs
     out.append(coq_strs("XARGS_FLAGS_WITH_ARG", const_strs(module_assign(mods["xargs"], "FLAGS_WITH_ARG"), "xargs FLAGS_WITH_ARG"),
